@@ -436,6 +436,40 @@ where
                 HasMore::Yes(n) => Res::More(2, n),
             });
         }
+        Op::UnwindNext => {
+            // the pull is made by a destructor (a scope guard) while this thread unwinds from an unrelated panic
+            struct PullOnDrop<'a, C: ConcurrentIter> {
+                it: &'a C,
+                slot: &'a RefCell<Option<orx_concurrent_iter::Next<C::Item>>>,
+            }
+            impl<'a, C: ConcurrentIter> Drop for PullOnDrop<'a, C> {
+                fn drop(&mut self) {
+                    *self.slot.borrow_mut() = self.it.next_id_and_value();
+                }
+            }
+            ctx.call(code);
+            let slot = RefCell::new(None);
+            let armed = PROBE.panic_at.load(Ordering::Relaxed) >= 0 || CLONE_PANIC_AT.load(Ordering::Relaxed) >= 0 || DROP_PANIC_AT.load(Ordering::Relaxed) >= 0;
+            if armed {
+                // an injected fault inside a destructor that runs while unwinding would abort the process: plain pull
+                *slot.borrow_mut() = it.next_id_and_value();
+            } else {
+                let _ = catch_unwind(AssertUnwindSafe(|| {
+                    let _guard = PullOnDrop { it, slot: &slot };
+                    resume_unwind(Box::new(Injected("unrelated-panic")));
+                }));
+            }
+            ctx.returned();
+            match slot.into_inner() {
+                None => ctx.close(Res::End),
+                Some(x) => {
+                    let i = ctx.item(&x.value, x.idx);
+                    let idx = x.idx;
+                    drop(x);
+                    ctx.close(Res::Items { begin: idx, announced: usize::MAX, requested: 1, items: vec![i], len_trace_ok: true, extra_after_end: false });
+                }
+            }
+        }
         Op::Skip => {
             ctx.call(code);
             it.skip_to_end();
